@@ -32,14 +32,34 @@ from .yp_prolog_visitor import *
 from .yp_generator import *
 import contextlib
 import click
-from .errors import CompilerError
+from antlr4.error.ErrorListener import ErrorListener
+from .errors import CompilerError, PrologSyntaxError
+
+class _RaisingErrorListener(ErrorListener):
+    '''Turns the first lexer or parser error into an exception, instead of
+    printing it and continuing with a repaired token stream.'''
+    def __init__(self, filename):
+        self.filename = filename
+    def syntaxError(self, recognizer, offendingSymbol, line, column, msg, e):
+        raise PrologSyntaxError(self.filename, line, column, msg)
 
 def _compile_prolog_from_stream(inp, ctx):
     '''compiles prolog source from an antlr4 stream.'''
+    listener = _RaisingErrorListener(getattr(ctx, 'current_source_file', ''))
     lexer = prologLexer(inp)
+    lexer.removeErrorListeners()
+    lexer.addErrorListener(listener)
     stream = CommonTokenStream(lexer)
     parser = prologParser(stream)
+    parser.removeErrorListeners()
+    parser.addErrorListener(listener)
     tree = parser.program()
+    if stream.LA(1) != Token.EOF:
+        # the grammar rule for program does not end in EOF: the parser stops at
+        # the first token that cannot start a clause
+        token = stream.LT(1)
+        raise PrologSyntaxError(listener.filename, token.line, token.column,
+                f"unexpected input '{token.text}'")
     visitor = YPPrologVisitor(ctx)
     program = visitor.visit(tree)
     compiler = YPPrologCompiler(ctx)
